@@ -296,9 +296,20 @@ func c46StartSystem() error {
 
 func c46StopSystem() {
 	if c46System != nil {
-		ctx, cancel := context.WithTimeout(context.Background(), 20*time.Second)
-		_ = c46System.Stop(ctx)
-		cancel()
+		// a system that lost workers to the livelock finding may never finish stopping:
+		// do not wait for it longer than 25 s
+		sys := c46System
+		done := make(chan struct{})
+		go func() {
+			ctx, cancel := context.WithTimeout(context.Background(), 20*time.Second)
+			_ = sys.Stop(ctx)
+			cancel()
+			close(done)
+		}()
+		select {
+		case <-done:
+		case <-time.After(25 * time.Second):
+		}
 		c46System = nil
 	}
 }
@@ -562,7 +573,17 @@ func c46Execute(x *vfkit.X, c *c46Case) c46Outcome {
 		if c.Fusion == 1 {
 			g = g.WithFusion(FuseNone)
 		}
-		h, err := g.Run(ctx, c46System)
+		h, err, blocked := c46Run(ctx, g)
+		if blocked {
+			// materialization itself did not return: the actor system no longer processes messages
+			for _, hh := range handles {
+				hh.Abort()
+			}
+			x.Class("inconclusive-timeout")
+			x.Class("inconclusive-timeout:run-blocked")
+			out.skipped = true
+			return out
+		}
 		if err != nil {
 			for _, hh := range handles {
 				hh.Abort()
@@ -638,6 +659,26 @@ func c46Execute(x *vfkit.X, c *c46Case) c46Outcome {
 		_, out.tuples = zipRec.snapshot()
 	}
 	return out
+}
+
+// c46Run materializes g, giving up after 30 s (only possible when the actor system is wedged).
+func c46Run(ctx context.Context, g RunnableGraph) (StreamHandle, error, bool) {
+	type res struct {
+		h   StreamHandle
+		err error
+	}
+	ch := make(chan res, 1)
+	sys := c46System
+	go func() {
+		h, err := g.Run(ctx, sys)
+		ch <- res{h, err}
+	}()
+	select {
+	case r := <-ch:
+		return r.h, r.err, false
+	case <-time.After(30 * time.Second):
+		return nil, nil, true
+	}
 }
 
 func c46StagePanic(x *vfkit.X, c *c46Case, what string, stalled bool) {
